@@ -14,6 +14,7 @@ with values as integers or `n` (NaN).
   expand DS                     -> ok | Pvals;Svals …  | index-error
   concat k DS…                  -> ok | nP nS n | pairs | P rows | S rows
   concatalias m DS… k ids…      -> same
+  concatmixed k DS… f1 … fk     -> same (fi = 1: member i has the opposite group order)
   compact nP0 nS0 n p s …       -> ok | uP | uS | new pairs   | empty | index-error
 Anything else -> bad-op.
 -/
@@ -134,6 +135,16 @@ def step (line : String) : String :=
       match pMany (fun t => (pDS t).map (fun (c, _, _, t') => (c, t'))) k ts with
       | some (ds, []) => showDS (concat ds)
       | _ => "bad-op"
+    | none => "bad-op"
+  | "concatmixed" :: rest =>
+    match pNat rest with
+    | some (k, ts) =>
+      match pMany (fun t => (pDS t).map (fun (c, _, _, t') => (c, t'))) k ts with
+      | some (ds, ts') =>
+        match pMany pNat k ts' with
+        | some (fl, []) => showDS (concatMixed (ds.zip (fl.map (· != 0))))
+        | _ => "bad-op"
+      | none => "bad-op"
     | none => "bad-op"
   | "concatalias" :: rest =>
     match pNat rest with
